@@ -19,7 +19,7 @@ from checks.common.cases import explore_cases
 PROP = 'C19'
 LEVEL = 'exploration'
 SHARDS = {'quick': 4, 'thorough': 16}
-BUDGET_S = {'quick': 40, 'thorough': 400}
+BUDGET_S = {'quick': 150, 'thorough': 400}
 RULE = ('texts over letters, digits (so " 28" and " 29" occur), spaces and the eight line-break forms at all '
         'positions (start, end, doubled) for iter_splitlines; file contents (empty, one line +- trailing newline, '
         'leading blank lines, multi-byte characters, \\r\\n straddling every block edge) read backwards with every '
@@ -300,7 +300,7 @@ def cleanup():
 
 def run(ctx):
     try:
-        explore_cases(ctx, gen, check, {'quick': 3500, 'thorough': 60000}[ctx.tier], 'lines', shrink)
+        explore_cases(ctx, gen, check, {'quick': 2000, 'thorough': 60000}[ctx.tier], 'lines', shrink)
     finally:
         cleanup()
 
